@@ -18,10 +18,16 @@ TRetry == /\ IsEvent("retry")
 TMatrix == /\ IsEvent("matrix")
            /\ bad' = bad \cup Flag(Ev.res = HR!MatrixRequired(Ev.clientcomp, Ev.servercomp), "compression combination: data must arrive unchanged iff client and server agree, else an error")
                          \cup Flag(Ev.res = "ok" => Ev.dataok, "data changed in transit")
+TDamaged == /\ IsEvent("matrixdamaged")
+            /\ bad' = bad \cup Flag(Ev.res \in HR!DamagedAllowed(Ev.clientcomp, Ev.servercomp, Ev.upstreamcomp, Ev.verify, Ev.damage),
+                                    "damaged upstream object: the hop that has to decode it must fail (a failure is never reported as success, nor as missing)")
+                          \cup Flag((Ev.upstreamcomp /\ ~Ev.servercomp /\ Ev.damage # "empty") => Ev.rawstatus >= 500,
+                                    "the server could not decode the upstream object it has to convert, yet did not answer with a server error")
+                          \cup Flag(Ev.rawstatus # 404, "the server reported a damaged object as missing")
 \* casync protocol session against the real server
 TProto == /\ IsEvent("proto")
           /\ bad' = bad \cup Flag(Ev.res = Ev.want, "casync protocol: " \o Ev.step)
-TNext == TRetry \/ TMatrix \/ TProto
+TNext == TRetry \/ TMatrix \/ TDamaged \/ TProto
 TSpec == TInit /\ [][TNext]_<<l, bad>>
 NoBad == bad = {}
 Constr == TLCSet(1, IF TLCGet(1) < l THEN l ELSE TLCGet(1)) /\ (IF TLCGet(1) = l THEN TLCSet(2, <<0, l>>) ELSE TRUE)
